@@ -146,8 +146,8 @@ func optNames(mask int) string {
 }
 
 // checkBase: lossless and positions of the option-free stream.
-func tkCheckBase(kind, s string, toks []tkTok, v *tkVerdict, path string) {
-	show := fmt.Sprintf("%s tokenizer on %q", kind, s)
+func tkCheckBase(who, s string, toks []tkTok, v *tkVerdict, path string) {
+	show := fmt.Sprintf("%s on %q", who, s)
 	tail := " [last functions entered: " + path + "]"
 	var sb strings.Builder
 	bad := ""
@@ -269,6 +269,216 @@ func (h *tkHarness) quoteInfo(base []tkTok) (from []bool, dec []string, why stri
 	return
 }
 
+// ---- instances configured through the exported API -------------------------------------------------
+// "Any built-in tokenizer" includes one whose symbol table, separators or quote symbols were set
+// through the exported API, also between two inputs. A history is a list of stages: configuration
+// calls, then inputs; every stream of every stage must be lossless and correctly positioned.
+
+type tkStage struct {
+	desc   string                    // the configuration calls of this stage in words ("" = none)
+	apply  func(h *tkHarness) string // "" or why the configuration could not be applied
+	inputs []string
+}
+
+type tkHistory []tkStage
+
+// addSymbols registers further symbols (plain Symbol type) with the tokenizer's symbol state.
+func (h *tkHarness) addSymbols(syms ...string) string {
+	sv, out := h.call("SymbolState")
+	si, ok := sv.(mIface)
+	if out.kind != "ok" || !ok {
+		return "SymbolState: " + out.why
+	}
+	f := h.c.lookupMethod(si.t, "Add")
+	if f == nil {
+		return "the symbol state has no Add"
+	}
+	typ, _ := h.c.constByName("tokenizers", "Symbol")
+	for _, s := range syms {
+		if _, out := h.m.Call(f, si.v, s, typ); out.kind != "ok" {
+			return fmt.Sprintf("SymbolState().Add(%q): %s %s", s, out.kind, out.why)
+		}
+	}
+	return ""
+}
+
+func (h *tkHarness) setRunes(method string, rs string) string {
+	var arr []mv
+	for _, r := range rs {
+		arr = append(arr, int64(r))
+	}
+	if _, out := h.call(method, mSlice{arr}); out.kind != "ok" {
+		return fmt.Sprintf("%s(%q): %s %s", method, rs, out.kind, out.why)
+	}
+	return ""
+}
+
+// tkOver: every string up to maxLen over an alphabet (the empty string excluded).
+func tkOver(alpha []string, maxLen int) []string {
+	var all []string
+	var rec func(p string, n int)
+	rec = func(p string, n int) {
+		if p != "" {
+			all = append(all, p)
+		}
+		if n == 0 {
+			return
+		}
+		for _, a := range alpha {
+			rec(p+a, n-1)
+		}
+	}
+	rec("", maxLen)
+	return all
+}
+
+// tkSymbolInputs: inputs over the characters of additionally registered symbols: every string up to
+// maxLen over those characters and a letter, and inputs that END at every point inside every symbol
+// (so also inside every proper prefix, registered or not) - alone, after a word, a blank, a digit,
+// the whole symbol and the same prefix; for templates also inside a tag.
+func tkSymbolInputs(kind string, syms []string, maxLen int) []string {
+	seen := map[string]bool{}
+	var out []string
+	add := func(s string) {
+		if !seen[s] {
+			seen[s] = true
+			out = append(out, s)
+		}
+	}
+	var alpha []string
+	for _, s := range syms {
+		for _, r := range s {
+			if !seen["α"+string(r)] {
+				seen["α"+string(r)] = true
+				alpha = append(alpha, string(r))
+			}
+		}
+	}
+	alpha = append(alpha, "a")
+	for _, s := range tkOver(alpha, maxLen) {
+		add(s)
+	}
+	for _, s := range syms {
+		rs := []rune(s)
+		for n := 1; n <= len(rs); n++ {
+			p := string(rs[:n])
+			for _, pre := range []string{"", "a", "a ", "1", s, p, s + " "} {
+				add(pre + p)
+				if kind == "mustache" {
+					add("{{" + pre + p)
+					add("x{{a " + pre + p)
+				}
+			}
+		}
+	}
+	return out
+}
+
+func (c *Ctx) tkHistories(kind string) []tkHistory {
+	var hs []tkHistory
+	maxLen := 3
+	if c.Tier == "thorough" {
+		maxLen = 4
+	}
+	if kind != "csv" {
+		// further symbols of three to five characters whose proper prefixes are partly registered, partly not
+		for _, syms := range [][]string{{"=:~"}, {"==="}, {"<<<<"}, {"<=>="}, {"=:~^!"}, {"=:~^!", "=:~"}, {"!~~", "!~~=<"}, {"-->"}, {"...", ".."}} {
+			syms := syms
+			hs = append(hs, tkHistory{{
+				desc:   fmt.Sprintf("SymbolState().Add of %q", syms),
+				apply:  func(h *tkHarness) string { return h.addSymbols(syms...) },
+				inputs: tkSymbolInputs(kind, syms, maxLen),
+			}})
+		}
+		// a symbol registered between two inputs
+		hs = append(hs, tkHistory{
+			{"", nil, []string{"=:", "a=:~", "=:~"}},
+			{`SymbolState().Add("=:~")`, func(h *tkHarness) string { return h.addSymbols("=:~") }, []string{"=:", "a=:~", "=:~", "=", "=:~=:", "=:~="}},
+			{`SymbolState().Add("=:~^!")`, func(h *tkHarness) string { return h.addSymbols("=:~^!") }, []string{"=:", "=:~", "=:~^", "=:~^!", "=:~^!=:~^", "a =:~^"}},
+		})
+		return hs
+	}
+	// CSV: several field separators used in one input; separators and quote symbols changed between inputs
+	for _, seps := range []string{",;", ",;\t", ";|", "\t,", "、,"} {
+		seps := seps
+		alpha := []string{"a", "\"", "\n", " "}
+		for _, r := range seps {
+			alpha = append(alpha, string(r))
+		}
+		in := tkOver(alpha, maxLen)
+		rs := []rune(seps)
+		in = append(in, "a"+string(rs[0])+"b"+string(rs[1])+"c"+string(rs[len(rs)-1])+"d\n"+string(rs[1])+string(rs[0])+"\"x"+string(rs[1])+"y\""+string(rs[1])+"z")
+		hs = append(hs, tkHistory{{
+			desc:   fmt.Sprintf("SetFieldSeparators(%q)", seps),
+			apply:  func(h *tkHarness) string { return h.setRunes("SetFieldSeparators", seps) },
+			inputs: in,
+		}})
+	}
+	rows := []string{"a,b", "a;b", "a,b;c\td|e", ",", ";", "\t", "|;,", "\"a,b\";'c;d'|e", "'", "a'b\"c", "x\r\n,;\n"}
+	set := func(method, rs string) tkStage {
+		return tkStage{fmt.Sprintf("%s(%q)", method, rs), func(h *tkHarness) string { return h.setRunes(method, rs) }, rows}
+	}
+	hs = append(hs,
+		tkHistory{{"", nil, rows}, set("SetFieldSeparators", ";"), set("SetFieldSeparators", "\t|"), set("SetQuoteSymbols", "'"), set("SetFieldSeparators", ","), set("SetQuoteSymbols", "\"'")},
+		tkHistory{set("SetFieldSeparators", ";"), set("SetQuoteSymbols", "'"), set("SetFieldSeparators", ",;"), set("SetQuoteSymbols", "\""), set("SetFieldSeparators", "|")},
+		tkHistory{set("SetQuoteSymbols", "'"), set("SetFieldSeparators", "\""), set("SetFieldSeparators", "|,"), set("SetQuoteSymbols", "\";")},
+	)
+	return hs
+}
+
+// tkRunHistory evaluates one history on a fresh instance.
+func (c *Ctx) tkRunHistory(kind string, hist tkHistory, v *tkVerdict) {
+	h := c.newTkHarness(kind)
+	if h.fault != "" {
+		v.note("lossless", "", h.fault)
+		return
+	}
+	if why := h.setOptions(0); why != "" {
+		v.note("lossless", "", why)
+		return
+	}
+	var done []string
+	for _, st := range hist {
+		if st.apply != nil {
+			done = append(done, st.desc)
+			if why := st.apply(h); why != "" {
+				if strings.Contains(why, " panic ") {
+					v.note("lossless", fmt.Sprintf("%s tokenizer: %s - a valid configuration is refused", kind, why), "")
+				} else {
+					v.note("lossless", "", kind+" tokenizer: "+why)
+				}
+				return
+			}
+		}
+		label := kind + " tokenizer"
+		if len(done) > 0 {
+			label = fmt.Sprintf("%s tokenizer (configured by %s)", kind, strings.Join(done, ", then "))
+			if len(hist) > 1 {
+				label = fmt.Sprintf("%s tokenizer (configured by %s; the same instance read the inputs of the earlier stages)", kind, strings.Join(done, ", then "))
+			}
+		}
+		for i, s := range st.inputs {
+			r := h.tokenize(s)
+			label := label
+			if i > 0 {
+				label += fmt.Sprintf(" as input %d of this stage (the one before was %q)", i+1, st.inputs[i-1])
+			}
+			show := fmt.Sprintf("%s on %q", label, s)
+			if i%41 == 0 {
+				noteSample("TOK.lossless/"+kind+"-configured", show)
+			}
+			switch r.kind {
+			case "opaque":
+				v.note("lossless", "", show+": "+r.why)
+			case "panic":
+				v.note("lossless", show+" panics: "+r.why, "")
+			default:
+				tkCheckBase(label, s, r.toks, v, h.lastPath)
+			}
+		}
+	}
+}
+
 var tkMemo = map[string]*tkVerdict{}
 var tkMu sync.Mutex
 
@@ -351,7 +561,7 @@ func (c *Ctx) tkRun(kind, part string) *tkVerdict {
 					v.note("lossless", show+" panics: "+r.why, "")
 					continue
 				}
-				tkCheckBase(kind, s, r.toks, v, h.lastPath)
+				tkCheckBase(kind+" tokenizer", s, r.toks, v, h.lastPath)
 				fresh[s] = renderToks(r.toks)
 				// the string-list entry point hands out exactly the token values
 				if part == "base" && (i >= nBounded || len([]rune(s)) <= 1) {
@@ -400,6 +610,14 @@ func (c *Ctx) tkRun(kind, part string) *tkVerdict {
 						default:
 							v.note("options", "", "")
 						}
+					}
+				}
+			}
+			// instances configured through the exported API (further symbols, several separators, reconfiguration between inputs)
+			if part == "base" {
+				for i, hist := range c.tkHistories(kind) {
+					if i%nw == w {
+						c.tkRunHistory(kind, hist, v)
 					}
 				}
 			}
